@@ -242,6 +242,25 @@ func verify(args []string) int {
 			}
 		}
 		wg.Wait()
+		// last resort against a loaded machine: a claimed obligation that is still undecided (never one that was refuted)
+		// gets one more run with a long budget and little competition before it may be reported
+		long := timeout * 15
+		if long > 240 {
+			long = 240
+		}
+		sem2 := make(chan struct{}, 3)
+		for i, o := range outs {
+			if o.Status == "unknown" && claimed[o.Obl.Name] {
+				wg.Add(1)
+				sem2 <- struct{}{}
+				go func(i int, ob *vc.Obligation) {
+					defer wg.Done()
+					defer func() { <-sem2 }()
+					outs[i] = vc.Solve(ob, workDir, 200000+i, long)
+				}(i, o.Obl)
+			}
+		}
+		wg.Wait()
 	}
 	solveS := 0.0
 	for _, o := range outs {
